@@ -2,5 +2,6 @@
 
 
 def generate():
-    from . import extract_log
+    from . import extract_log, extract_consts
     extract_log.generate()
+    extract_consts.generate()
